@@ -7,7 +7,7 @@ open Wire C25
 Driver for C25/C26 (same op language as harness/cmd/h_c25):
   case <name> <fin> <margin> <rec> <gbits>   -> tip=0 h=0 td=<n>
   blk <id> <parent> <height> <bits> <salt> <txs>  -> ok
-  deliver <id> | chain | td <id> | seqs | seqof <id> | isorphan <id> | end
+  deliver <id> | chain | td <id> | seqs | seqof <id> | isorphan <id> | tx <tag> | end
 Block ids on the wire are tree indices, 0 = genesis.  `diff` of a block is
 `C20.calcWork bits` (the model of difficulty.CalcWork, tied separately by C20).
 -/
@@ -44,6 +44,10 @@ def seqStr (s : State) : String :=
     | none => "nil "
   String.join recs ++ s!"last={s.lastSeq}"
 
+/-- `-` or a comma separated list of transaction tags. -/
+def parseTxs (w : String) : Option (List Nat) :=
+  if w == "-" then some [] else (w.splitOn ",").mapM (·.toNat?)
+
 def handle (d : DState) (line : String) : DState × String :=
   match words line with
   | ["case", _, fin, margin, rec, gbits] =>
@@ -55,13 +59,17 @@ def handle (d : DState) (line : String) : DState × String :=
         ({ st := some s, blocks := [g], started := false }, tipStr s)
       else ({ d with st := none }, "bad-op")
     | _, _, _ => ({ d with st := none }, "bad-op")
-  | ["blk", id, par, h, bits, salt, _] =>
-    match d.st, id.toNat?, par.toNat?, h.toNat?, bits.toNat?, salt.toNat? with
-    | some _, some id, some par, some h, some bits, some _ =>
+  | ["blk", id, par, h, bits, salt, txs] =>
+    match d.st, id.toNat?, par.toNat?, h.toNat?, bits.toNat?, salt.toNat?, parseTxs txs with
+    | some _, some id, some par, some h, some bits, some _, some txs =>
       if !d.started && id == d.blocks.length && par < id && bits < 2^32 then
-        ({ d with blocks := d.blocks ++ [{ id := id, parent := par, height := h, diff := work bits }] }, "ok")
+        ({ d with blocks := d.blocks ++ [{ id := id, parent := par, height := h, diff := work bits, txs := txs }] }, "ok")
       else (d, "bad-op")
-    | _, _, _, _, _, _ => (d, "bad-op")
+    | _, _, _, _, _, _, _ => (d, "bad-op")
+  | ["tx", tag] =>
+    match d.st, tag.toNat? with
+    | some s, some t => ({ d with started := true }, optNat (s.txIdx t))
+    | _, _ => (d, "bad-op")
   | [op, arg] =>
     match d.st, arg.toNat? with
     | some s, some id =>
